@@ -50,6 +50,31 @@ def repl(tag, body):
         d = d[:d.index(a) + len(a)] + '\n' + body + '\n' + d[d.index(b):]
     else:
         print('marker missing:', tag)
+import re as _re
+kf = json.load(open(os.path.join(ROOT, 'known_findings.json')))
+fx = {}
+for f in kf['fixed']:
+    mm = _re.match(r'fixed: property=(C\d\d) (\w+) (.*)', f)
+    fx.setdefault(mm.group(1), []).append((mm.group(2), mm.group(3)))
+fd = {}
+for f in kf['findings']:
+    fd.setdefault(f['property'], []).append((f['id'], f['what']))
+why = {'C02': 'The VM and the interpreter are two separately written engines; each of these gaps needs a semantic decision (which engine is right) or a larger VM change (scoped locals, user functions, built-ins) that is not a small safe patch. The single most valuable repair would be at the fallback rule (an unresolved call -> non-semantic compile error -> interpreter).',
+       'C03': 'The optimizer rewrites only pointer-form ASTs (the parser produces value form, so `glyph compile` output is unaffected today); making propagation flow-sensitive and the algebraic rewrites type-aware is a redesign of `pkg/compiler/optimizer.go`, not a patch.',
+       'C07': 'Whether an absent/ill-formed body should be a 400 when the declared type has required fields, and whether compiled mode should apply defaults / check return types, are behaviour changes across both engines (same roots as two C02 findings).',
+       'C11': 'The unit model of the CLI conversion (everything expressed per minute with burst = budget) needs a new configuration surface in the middleware (window + burst), not a one-line change.',
+       'C18': 'The expanded syntax is a second, incomplete grammar: the expanded lexer lacks operators and keywords the compact syntax has, `expand` only looks at line starts and `compact` rewrites words inside blocks without a parse. Repairing it means finishing that grammar.'}
+out = ['### 5.1 Repaired (`fix:` commits, oldest first per property; %d in total)\n' % len(kf['fixed'])]
+for pid in sorted(fx):
+    for c, w in fx[pid]:
+        out.append(f'* **{pid}** `{c}` — {w}')
+out.append('\n### 5.2 Recorded, not repaired (%d findings; each replayed by a directed probe or matched by signature on every run)\n' % len(kf['findings']))
+for pid in sorted(fd):
+    out.append(f'**{pid}** — {why.get(pid, "")}\n')
+    for i, w in fd[pid]:
+        out.append(f'* `{i}` — {w}')
+    out.append('')
+repl('FINDINGS', '\n'.join(out))
 repl('TABLE2', table2)
 if sens:
     repl('SENSITIVITY', sens)
